@@ -272,6 +272,17 @@ def campaign_module_path(ck: Check, n: int) -> None:
         camp.distinct.add(("s", t, s))
         if model != impl:
             ck.disagree(camp, {"fn": "sanitize_module_name", "name": s, "treat_dot": t}, model, impl)
+    # the statement used next to `sanitized_stem_ascii`: the compiler's normalisation leaves ASCII text alone,
+    # and what it does to the non-ASCII representatives is what the name classes above say
+    for cp in range(128):
+        camp.evaluations += 1
+        if nfkc(chr(cp)) != chr(cp):
+            ck.disagree(camp, {"fn": "NFKC fixes ASCII", "char": cp}, chr(cp), nfkc(chr(cp)))
+    for c in u["unstable_known"]:
+        camp.evaluations += 1
+        if nfkc(c) == c or not ("a" + c).isidentifier():
+            ck.disagree(camp, {"fn": "representative is an NFKC-unstable identifier character", "char": uesc(c)}, True, False)
+    camp.hit("nfkc:ascii_fixed", 128)
     p_cases = []
     for _ in range(n):
         t = rng.chance(1, 2)
@@ -303,6 +314,123 @@ def campaign_module_path(ck: Check, n: int) -> None:
         if model_path != list(impl_path) or model_name != impl_name:
             ck.disagree(camp, {"fn": "get_module_path", "name": nm, "file": f, "treat_dot": t}, (model_name, model_path), (impl_name, impl_path))
     camp.wall_s = time.time() - t0
+
+
+# ---------------------------------------------------------------- campaign: names of imports (scoped resolver)
+def PAIRS(ps) -> str:
+    return "(" + " ".join(f"({hx(a)} {hx(b)})" for a, b in ps) + ")"
+
+
+def model_aliases(ck: Check, jobs: list[tuple]) -> list:
+    """`mod.aliases` for (excl, classes, reqs) jobs -> list of names | "diverges" | "unmodelled" """
+    out = []
+    for rep in ck.driver.run([f"mod.aliases {P(sorted(e))} {PAIRS(c)} {PAIRS(r)}" for e, c, r in jobs]):
+        t = rep.split(" ")
+        out.append([unhx(x) for x in t[1:]] if t[0] == "ok" else rep)
+    return out
+
+
+def campaign_aliases(ck: Check, n: int) -> None:
+    """Model/Modules.importNames (two loops over one scoped resolver) vs a real ModelResolver driven the way
+    __change_from_import drives it: every class first, then every foreign reference"""
+    from datamodel_code_generator.reference import ModelResolver
+
+    camp = ck.campaign("mod.aliases (Scope.add / importNames) vs reference.ModelResolver driven as __change_from_import does")
+    t0 = time.time()
+    rng = ck.rng.fork("aliases")
+    words = ["Status", "Job", "Step", "Shared", "a", "b", "jobs", "Status_1", "Status_2", "K1", "x", "class", "1a", "my-name", ""]
+    jobs = []
+    for _ in range(n):
+        excl = {rng.choice(words[:11]) for _ in range(rng.range(0, 2))}
+        classes = []
+        for i in range(rng.range(0, 4)):
+            classes.append((f"#/definitions/m.{i}", rng.choice(words[:10])))
+        reqs = []
+        for _ in range(rng.range(0, 5)):
+            key = (rng.choice([".", "..", ".a", "..b"]), rng.choice(["a", "b", "Status", "Shared"]))
+            reqs.append((key, rng.choice(words if rng.chance(1, 6) else words[:10])))
+        jobs.append((excl, classes, reqs))
+    model = model_aliases(ck, [(e, [(ModelResolver.join_path([k]), c) for k, c in cl], [(ModelResolver.join_path(k), nm) for k, nm in rq]) for e, cl, rq in jobs])
+    for (excl, classes, reqs), m in zip(jobs, model):
+        camp.evaluations += 1
+        r = ModelResolver(exclude_names=set(excl))
+        for k, c in classes:
+            r.add([k], c)
+        impl = [r.add(k, nm).name for k, nm in reqs]
+        clash = bool({nm for _, nm in reqs} & ({c for _, c in classes} | excl))
+        camp.hit("asks_for_a_taken_name" if clash else "no_clash")
+        camp.hit(f"requests:{min(len(reqs), 3)}{'+' if len(reqs) > 3 else ''}")
+        if reqs:
+            camp.distinct.add(json.dumps([sorted(excl), classes, reqs]))
+        if m == "unmodelled":
+            camp.unmodelled += 1
+            continue
+        if m != impl:
+            ck.disagree(camp, {"fn": "ModelResolver.add sequence", "excl": sorted(excl), "classes": classes, "reqs": reqs}, m, impl)
+    camp.samples.append({"classes": ["Job", "Status", "Step"], "request": "Status", "name": "Status_1"})
+    camp.wall_s = time.time() - t0
+
+
+_RECORDS: list = []
+
+
+def install_recorder() -> None:
+    """Observe the real Parser.__change_from_import from outside: per call, the classes of the module, the excluded
+    names and every scoped_model_resolver.add(path, name) it makes with the name it got back."""
+    from datamodel_code_generator.parser import base as pb
+
+    orig = pb.Parser._Parser__change_from_import
+    if getattr(orig, "_c12_recorder", False):
+        return
+
+    def wrapper(self, models, imports, scoped_model_resolver, init):
+        res = scoped_model_resolver
+        rec = {"excl": sorted(res.exclude_names), "classes": [(res.join_path([m.path]), m.class_name) for m in models], "calls": []}
+        real_add = res.add
+
+        def add(path, original_name, **kw):
+            ref = real_add(path, original_name, **kw)
+            rec["calls"].append((res.join_path(path), original_name, ref.name, sorted(kw)))
+            return ref
+
+        res.add = add  # instance attribute: only this resolver, only during this call
+        try:
+            return orig(self, models, imports, scoped_model_resolver, init)
+        finally:
+            del res.add
+            _RECORDS.append(rec)
+
+    wrapper._c12_recorder = True
+    pb.Parser._Parser__change_from_import = wrapper
+
+
+def check_records(ck: Check, camp, case: dict, records: list) -> None:
+    """the names the real __change_from_import got for its imports vs Model/Modules.importNames on the same
+    classes, excluded names and sequence of foreign references"""
+    jobs, metas = [], []
+    for rec in records:
+        class_keys = {k for k, _ in rec["classes"]}
+        reqs = [(k, nm, got) for k, nm, got, kw in rec["calls"] if k not in class_keys]
+        if any(kw for _, _, _, kw in rec["calls"]):
+            camp.hit("aliases:call_with_keywords_unmodelled")
+            continue
+        if not reqs:
+            continue
+        if len(class_keys) != len(rec["classes"]):
+            camp.hit("aliases:outside_hypothesis:duplicate_model_path")
+        jobs.append((rec["excl"], rec["classes"], [(k, nm) for k, nm, _ in reqs]))
+        metas.append([got for _, _, got in reqs])
+    for (excl, classes, reqs), got, m in zip(jobs, metas, model_aliases(ck, jobs) if jobs else []):
+        camp.hit("aliases:modules_compared")
+        if m == "unmodelled":
+            camp.hit("aliases:unmodelled_non_ascii")
+            continue
+        if any(a != nm for a, (_, nm) in zip(got, reqs)):
+            camp.hit("aliases:renamed_import")
+        if m != got:
+            ck.disagree(camp, {"fn": "__change_from_import names", "excl": excl, "classes": classes, "reqs": reqs, "case": case}, m, got)
+        if set(got) & {c for _, c in classes}:
+            camp.hit("aliases:IMPORT_TAKES_LOCAL_CLASS_NAME")
 
 
 # ---------------------------------------------------------------- end-to-end: documents
@@ -950,6 +1078,8 @@ def classify(fail: dict, case: dict, pred: dict | None, files: dict[str, str]) -
 
 
 def observe(case: dict) -> e2e.Result:
+    install_recorder()
+    _RECORDS.clear()
     if "files" in case:
         return run_tree(case)
     return e2e.run_generate(build_doc(case["defs"], case["bases"], case.get("roots")), model=case["model"], opts=case["opts"], modular=True)
@@ -992,6 +1122,9 @@ def check_case(ck: Check, camp, case: dict, pending: list, correspond: bool = Tr
     """static oracles + model correspondence for one case; queues the package for the import oracle"""
     camp.evaluations += 1
     res = observe(case)
+    records = list(_RECORDS)
+    if correspond and records:
+        check_records(ck, camp, case, records)
     for k in case["opts"]:
         camp.hit(f"opt:{k}")
     camp.hit(f"kind:{case['model']}")
@@ -1398,11 +1531,14 @@ def run(ck: Check) -> None:
         "module paths of dotted definition names consist of identifiers (FieldNameResolver.get_valid_name, property C07); directory names of input trees are outside the file-map model (oracle only)",
         "the order of module paths is the one Python's sorted(key=(len, path), reverse=True) yields (the harness sorts; the theorems only use deepest-first)",
         "the condition of the package-file extra dot is modelled on name lists (importer path is a prefix of the importee path); the code tests it on dotted strings with a trailing '.', which is the same for names without dots",
-        "alias allocation (import … as …) is not modelled: import lines are compared up to the alias, uses are checked by the oracle",
+        "names of imports: the scoped resolver is modelled for the calls __change_from_import makes (add(path, name) with default flags; Model/Modules.Scope.add, compared with a real ModelResolver and with the recorded calls of every generated module); get_valid_field_name is a parameter of the theorem (identity on the class names met); the `module.Class` spelling of each use and the later passes (__collapse_root_models, __change_imported_model_name) are checked by oracle (5) only",
+        "oracle (5) tells classes by the set of members their class statement declares: generated documents give every definition a member of its own; references to root models (arrays) and documents with two equal member sets are outside it (counted as reach_skipped)",
+        "Python NFKC-normalises identifiers in source text (import statements included) but not the strings given to importlib: the import oracle imports every module by its NFKC-normalised dotted name; NFKC fixes ASCII (checked on all 128 characters each run)",
     ]
     campaign_resolve(ck, 3 if quick else 4)
     campaign_relative(ck, 3 if quick else 4, 300 if quick else 3000)
     campaign_module_path(ck, 400 if quick else 4000)
+    campaign_aliases(ck, 400 if quick else 4000)
     campaign_e2e(ck, 200 if quick else 3000, 30 if quick else 400, 3 if quick else 4, n_clash=120 if quick else 1500)
     ck.search_hooks += [search_from_disagreements, search_module_names, search_same_short_name]
     known_findings(ck)
